@@ -327,7 +327,7 @@ def expr_reference(g, toks, names):
     """precedence-climbing reference for the operator grammars of gen.expr_grammar.
     Returns a tree (nested tuples of rule shapes) or None for a syntax error."""
     # operator info from the symbol table the implementation built
-    sym = {v["name"].strip('"'): k for k, v in g.syms.items()}
+    sym = {v["name"]: k for k, v in g.syms.items()}
     T0 = sym["T0"]
     lp, rp = sym.get("$operator("), sym.get("$operator)")
     binops = {}
@@ -450,7 +450,7 @@ def shape(g, t):
 
 
 def random_expr_tokens(g, rng, depth=0):
-    sym = {v["name"].strip('"'): k for k, v in g.syms.items()}
+    sym = {v["name"]: k for k, v in g.syms.items()}
     T0 = sym["T0"]
     ops = [rhs[1] for (lhs, rhs, _) in g.rules[1:] if len(rhs) == 3 and rhs[0] == rhs[2] == lhs]
     un = [rhs[0] for (lhs, rhs, _) in g.rules[1:] if len(rhs) == 2]
@@ -718,7 +718,7 @@ def check_C06(tier):
         if core.g is None:
             continue
         conflict_free = core.V.get("isLALR1", ["?"])[0] == "yes"
-        name2id = {v["name"].strip('"'): k for k, v in core.g.syms.items()}
+        name2id = {v["name"]: k for k, v in core.g.syms.items()}
         ids = [name2id.get(t if not t.startswith("'") else "$operator" + t[1], 0) for t in c["xs"]["terms"]]
         for w in c["inputs"]:
             toks = [ids[ord(ch) - 97] if ord(ch) - 97 < len(ids) else 0 for ch in w]
@@ -754,6 +754,10 @@ import gen     # noqa: E402
 import xrun    # noqa: E402
 
 HAND_SPECS = [
+    # operators whose names contain characters that are special in Go string literals / Printf formats
+    {"tokens": ["N"], "lits": ["'%'", "'\"'", "'+'"], "prec": [("left", ["'+'"]), ("left", ["'%'", "'\"'"])], "nts": ["E"], "start": "E",
+     "rules": [{"lhs": "E", "rhs": ["E", "'+'", "E"], "prec": None}, {"lhs": "E", "rhs": ["E", "'%'", "E"], "prec": None},
+               {"lhs": "E", "rhs": ["E", "'\"'", "E"], "prec": None}, {"lhs": "E", "rhs": ["N"], "prec": None}]},
     {"tokens": ["A", "B", "C", "D", "E"], "lits": [], "prec": [], "nts": ["S", "X", "Y"], "start": "S",
      "rules": [{"lhs": "S", "rhs": ["A", "Y", "E"], "prec": None}, {"lhs": "S", "rhs": ["A", "X", "D"], "prec": None},
                {"lhs": "S", "rhs": ["B", "Y", "D"], "prec": None}, {"lhs": "X", "rhs": ["C"], "prec": None},
@@ -971,7 +975,7 @@ def check_C07(tier):
         if g is None:
             continue
         # letters -> symbol ids through the implementation's numbering (names)
-        name2id = {v["name"].strip('"'): k for k, v in g.syms.items()}
+        name2id = {v["name"]: k for k, v in g.syms.items()}
         ids = []
         for t in c["xs"]["terms"]:
             nm = t if not t.startswith("'") else "$operator" + t[1]
@@ -1012,7 +1016,6 @@ import re  # noqa: E402
 
 
 def trace_name(nm):
-    nm = nm.strip('"')
     if len(nm) > 9 and nm.startswith("$operator"):
         return "'" + nm[9:] + "' "
     return nm
@@ -1039,7 +1042,7 @@ def check_C17(tier):
             continue
         goto = {(q, x): p for (q, x, p) in c["core"].gotos()}
         names = {k: trace_name(v["name"]) for k, v in g.syms.items()}
-        name2id = {v["name"].strip('"'): k for k, v in g.syms.items()}
+        name2id = {v["name"]: k for k, v in g.syms.items()}
         ids = []
         for t in c["xs"]["terms"]:
             nm = t if not t.startswith("'") else "$operator" + t[1]
@@ -2052,7 +2055,6 @@ C14_LEVEL = "exploration"
 # ------------------------------------------------------------------------------------------- C18
 
 def dot_escape(nm):
-    nm = nm.strip('"')
     if len(nm) > 9 and nm.startswith("$operator"):
         nm = "'" + nm[9:] + "' "
     return nm.replace("<", "\\<").replace(">", "\\>")
@@ -2060,7 +2062,7 @@ def dot_escape(nm):
 
 def item_str(g, names, r, d):
     lhs, rhs, _ = g.rules[r]
-    s = names[lhs].strip('"') + "-\\>"
+    s = names[lhs] + "-\\>"
     if not rhs:
         return s + "ε"
     for i, x in enumerate(rhs):
@@ -2190,9 +2192,9 @@ def check_C18(tier):
                 exp_items = []
                 for (r, d) in states[bi]:
                     lhs, rhs, _ = g.rules[r]
-                    exp_items.append(names[lhs].strip('"') + "-->" + "".join(" %s " % names[x].strip('"') for x in rhs[:d]) + "@" +
-                                     "".join(" %s " % names[x].strip('"') for x in rhs[d:]))
-                exp_gotos = ["at %s goto %d " % (names[x].strip('"'), p2) for (q2, x, p2) in gotos if q2 == bi]
+                    exp_items.append(names[lhs] + "-->" + "".join(" %s " % names[x] for x in rhs[:d]) + "@" +
+                                     "".join(" %s " % names[x] for x in rhs[d:]))
+                exp_gotos = ["at %s goto %d " % (names[x], p2) for (q2, x, p2) in gotos if q2 == bi]
                 if got_items != exp_items:
                     why = "listing items of state %d: %s, the state holds %s" % (bi, got_items, exp_items)
                 elif got_gotos != exp_gotos:
@@ -2203,8 +2205,8 @@ def check_C18(tier):
             exp = []
             for (q_, r, la) in las:
                 lhs, rhs, _ = g.rules[r]
-                exp.append("%d:%s-->%s : %s" % (q_, names[lhs].strip('"'), "".join(" %s " % names[x].strip('"') for x in rhs),
-                                                 "".join(" " + names[a].strip('"') for a in (la if r != 0 else [1]))))
+                exp.append("%d:%s-->%s : %s" % (q_, names[lhs], "".join(" %s " % names[x] for x in rhs),
+                                                 "".join(" " + names[a] for a in (la if r != 0 else [1]))))
             # the listing prints lookaheads in the implementation's internal order: compare as sets of symbols per line
             def canon(s):
                 a, b = s.rsplit(" : ", 1)
